@@ -28,7 +28,7 @@ MANIFEST = {
 def main():
     run = vlib.Run("C18", "model_checking")
     thorough = run.tier == "thorough"
-    vh = vlib.build_vh()
+    vh = vlib.build_vh("flowmap")
     with vlib.Scratch("verif-c18-") as sc:
         # ---- M
         r = vlib.tlc("flowmap", "FlowMapMC", "FlowMapMC.cfg", coverage=True, scratch=sc, timeout=900,
@@ -129,7 +129,7 @@ def main():
 
 def replay(path):
     d = json.load(open(path))["replay"]
-    vh = vlib.build_vh()
+    vh = vlib.build_vh("flowmap")
     if d["kind"] == "flowmap-replay":
         rc, outs, _ = vlib.run_vh(vh, ["flowmap-replay", "-seed", str(d["seed"])],
                                   stdin_lines=[json.dumps(d["behaviour"])])
